@@ -36,6 +36,13 @@ impl OverrideEntryPoint {
         let sylvia = crate_module();
         let values = msg_type.emit_ctx_values();
 
+        // The multitest `reply` function is handed the `Reply` itself, not its serialized form.
+        if *msg_type == MsgType::Reply {
+            return quote! {
+                #entry_point ( #values .into(), msg).map_err(Into::into)
+            };
+        }
+
         quote! {
             #entry_point ( #values .into(), #sylvia ::cw_std::from_json::< #msg_name >(&msg)?)
                 .map_err(Into::into)
